@@ -868,8 +868,12 @@ def check_peel(ctx, rule):
                     er = (1 << (51 - k)) if k < 52 else 0
                     okr = okr and gr == er
                     oko = oko and go == (val & ~er)
-            rep.ob(rule, "return/%d" % k, okr, "peel when %s: returned value is not %s (decided by fold over %d structured sets)" % (what, "that card's bit" if k < 52 else "BLANK", len(lows) * len(highs)), pdb.where(key))
-            rep.ob(rule, "state/%d" % k, oko, "peel when %s: the set afterwards is not the set %s (fold over structured sets)" % (what, "minus that card" if k < 52 else "unchanged"), pdb.where(key))
+            if okr and oko:
+                # no counterexample among the structured members of the case, and no proof for all of them
+                rep.uncertified(rule, "peel when %s: the code computes with the set in a way the per-bit abstraction cannot follow; %d structured sets of the case agree, the rest of the case is not certified" % (what, len(lows) * len(highs)), pdb.where(key))
+            else:
+                rep.ob(rule, "return/%d" % k, okr, "peel when %s: returned value is not %s (decided by fold over %d structured sets)" % (what, "that card's bit" if k < 52 else "BLANK", len(lows) * len(highs)), pdb.where(key))
+                rep.ob(rule, "state/%d" % k, oko, "peel when %s: the set afterwards is not the set %s (fold over structured sets)" % (what, "minus that card" if k < 52 else "unchanged"), pdb.where(key))
             folded_cases.append(k)
             n += 1
             continue
@@ -980,9 +984,11 @@ def check_C15(ctx):
                 if cval(ctx.fold(r, {"s": sv, "c": cv})) != (sv | cv):
                     okf = False
                     break
-            rep.note("C15.fold_in decided by fold over structured/seeded set pairs (arithmetic formulation)")
-            rep.extra["exhaustive"] = False
-        rep.ob("C15.fold_in", "union", okf, "fold_in is not the bitwise union", pdb.where(key))
+            if okf:
+                rep.uncertified("C15.fold_in", "fold_in is not recognised bit by bit as the union (arithmetic formulation); no counterexample among the structured pairs of sets, all pairs cannot be certified", pdb.where(key))
+                okf = None
+        if okf is not None:
+            rep.ob("C15.fold_in", "union", okf, "fold_in is not the bitwise union", pdb.where(key))
         # has = subset test: decided on the patterns (s_i, c_i) present among the bit positions
         key, sty = ctx.method("u64", "has", BC)
         r = ctx.summ(key, [("r", s), ("v", c)], sty).ret
@@ -1029,9 +1035,11 @@ def check_C15(ctx):
         okc = r[0] == "call" and r[1] == "count_ones" and r[2][0] is s
         if not okc:
             okc = all(cval(ctx.fold(r, {"s": sv})) == bin(sv).count("1") for sv in structured_sets(rep.seed))
-            rep.note("C15.count decided by fold over structured/seeded sets (not a plain count_ones)")
-            rep.extra["exhaustive"] = False
-        rep.ob("C15.count", "popcount", okc, "number_of_cards is not the population count of the set", pdb.where(key))
+            if okc:
+                rep.uncertified("C15.count", "number_of_cards is not a plain count_ones of the set; no counterexample among the structured sets, all sets cannot be certified", pdb.where(key))
+                okc = None
+        if okc is not None:
+            rep.ob("C15.count", "popcount", okc, "number_of_cards is not the population count of the set", pdb.where(key))
         key, sty = ctx.method("u64", "is_single_card", BC)
         r = ctx.summ(key, [("r", s)], sty).ret
         nn = atom("n", "u32")
@@ -1044,8 +1052,11 @@ def check_C15(ctx):
                     oks = oks and (cval(val) == (1 if (lo == 1 and hi == 1) else 0)) and not (lo < 1 < hi) and not ident
         if not oks:
             oks = all(bool(cval(ctx.fold(r, {"s": sv}))) == (bin(sv).count("1") == 1) for sv in structured_sets(rep.seed))
-            rep.extra["exhaustive"] = False
-        rep.ob("C15.is_single_card", "count == 1", oks, "is_single_card is not `exactly one member`", pdb.where(key))
+            if oks:
+                rep.uncertified("C15.is_single_card", "is_single_card is not a table over the population count; no counterexample among the structured sets, all sets cannot be certified", pdb.where(key))
+                oks = None
+        if oks is not None:
+            rep.ob("C15.is_single_card", "count == 1", oks, "is_single_card is not `exactly one member`", pdb.where(key))
         # validity: non-empty and no bit above the 52 card bits
         key, sty = ctx.method("u64", "is_valid", BC)
         r = ctx.summ(key, [("r", s)], sty).ret
@@ -1055,9 +1066,17 @@ def check_C15(ctx):
         okv = f == exp
         if not okv and "top" in str(f):
             okv = all(bool(cval(ctx.fold(r, {"s": sv}))) == (sv != 0 and sv >> 52 == 0) for sv in structured_sets(rep.seed))
-            rep.note("C15.is_valid decided by fold over structured/seeded sets (ordering comparison instead of a mask test)")
-            rep.extra["exhaustive"] = False
-        rep.ob("C15.is_valid", "formula", okv, "is_valid is not `non-empty and no bits above the 52 card bits`: %s" % describe_formula(f), pdb.where(key))
+            if okv:
+                # an ordering comparison of the whole set with a constant is a cell table over the 64-bit value
+                try:
+                    cells_, _n = cell_table(pdb, r, "s", "u64")
+                    okv = all((not ident_) and bool(cval(val_)) == (lo_ != 0 and hi_ >> 52 == 0) and not (lo_ == 0 < hi_) and not (lo_ >> 52 == 0 < hi_ >> 52) for (lo_, hi_), val_, ident_ in cells_)
+                    rep.note("C15.is_valid decided as a cell table over the 64-bit value (ordering comparison instead of a mask test)")
+                except (CellsRefused, Uncertified):
+                    rep.uncertified("C15.is_valid", "is_valid is neither recognised bit by bit nor a comparison table over the set; no counterexample among the structured sets, all sets cannot be certified", pdb.where(key))
+                    okv = None
+        if okv is not None:
+            rep.ob("C15.is_valid", "formula", okv, "is_valid is not `non-empty and no bits above the 52 card bits`: %s" % describe_formula(f), pdb.where(key))
     ctx.guard("C15.ops", ops)
 
     def ops_total():
